@@ -13,6 +13,7 @@
 (*           r = 16 * result / 2^s, exact                                   *)
 (*  "lerpw"  wide ranges (multiples of 2^24) at the f32 neighbours of x = 0  *)
 (*           and x = 1: exact where every f32 intermediate is exact          *)
+(*  "lerpaa" lerp(a, a, x) = a where 1 - x is not an f32 number             *)
 (*  "summary" float-comparison laws and glam component-wise counts          *)
 (*  a record with "panic" is a violation (no panic for representable input) *)
 (***************************************************************************)
@@ -23,6 +24,8 @@ VARIABLE l
 Init == l = 1
 
 Abs(v) == IF v < 0 THEN -v ELSE v
+\* marks a record that is accepted only under the as-found f32 rounding (the check turns these into the known finding)
+Deviation(r, i) == PrintT(<<"DEVIATION", "f32-inexact-intermediate", r.ev, r.ty, r.a, i, r.r[i]>>)
 RECURSIVE Ulp(_, _)
 Ulp(v, m) == IF (v \div m) < 16777216 THEN m ELSE Ulp(v, 2 * m)      \* (no product: TLC integers are 32-bit)
 \* a + (b - a) * n / d without 32-bit overflow: d is a power of two <= 2^25 here and |a|,|b| < 2^31
@@ -44,7 +47,10 @@ CheckInt(r) ==
     THEN LET p == Num(r.a, r.b, n, d)  v == RoundHA(p, d)  u == Ulp(Abs(v), 1) IN
          IF Max(Abs(r.a), Abs(r.b)) * d < 16777216                     \* every f32 intermediate is exact:
          THEN r.r[i] = v \/ (IsTie(p, d) /\ Abs(r.r[i] - v) = 1)       \*   round to nearest, exactly
-         ELSE Abs(r.r[i] - v) <= u                                      \* else within one f32 spacing of the result
+         ELSE IF r.r[i] = v \/ (IsTie(p, d) /\ Abs(r.r[i] - v) = 1) THEN TRUE
+         ELSE \* as found: an f32 intermediate was rounded and the result is NOT the nearest integer - at most one
+              \* f32 spacing off (reported as the known finding, never silently)
+              Abs(r.r[i] - v) <= u /\ Deviation(r, i)
     ELSE \* fine x (f32 neighbours of 0, 1/2, 1) or large values: between a and b and close to the real value
          /\ Min(r.a, r.b) <= r.r[i] /\ r.r[i] <= Max(r.a, r.b)
          /\ (Abs(r.a) <= 30 /\ Abs(r.b) <= 30 /\ d = 33554432 =>
@@ -52,6 +58,14 @@ CheckInt(r) ==
                    t == (2 * p) % (2 * d)                       \* = d exactly on a tie
                IN \/ r.r[i] = RoundHA(p, d)                      \* nearest integer
                   \/ (Abs(t - d) <= 64 /\ Abs(r.r[i] - RoundHA(p, d)) = 1))   \* within 2^-20 of a tie: f32 cannot tell
+
+\* "lerpaa": lerp(a, a, x) at positions x = xq / 2^30 whose complement is not an f32 number.  The law says a.
+\* As found: a (1 - x) + a x is evaluated in f32, the two products are rounded separately, and from |a| >= 2^22
+\* on their sum can miss a by one f32 spacing (8388607 at x = 0.252 gives 8388608).  Below 2^22 the law is exact.
+CheckSame(r) ==
+  \A i \in 1..Len(r.xq) :
+    IF r.r[i] = r.a THEN TRUE
+    ELSE Abs(r.a) >= 4194304 /\ Abs(r.r[i] - r.a) <= Ulp(Abs(r.a), 1) /\ Deviation(r, i)
 
 \* "lerpw": a = ma * 2^24, b = mb * 2^24 (ma, mb <= 127), x = n / 2^24: the real interpolation is the integer
 \* P = ma * (2^24 - n) + mb * n.  For ma, mb <= 1 both f32 products and their sum are exact (at most 24 bits), so
@@ -70,6 +84,7 @@ CheckRec(r) ==
   ELSE IF r.ev = "lerpf" THEN \A k \in 0..16 : r.r[k + 1] = Num(r.a, r.b, k, 16)
   ELSE IF r.ev = "lerps" THEN "panic" \notin DOMAIN r /\ \A k \in 0..16 : r.r[k + 1] = Num(r.ma, r.mb, k, 16)
   ELSE IF r.ev = "lerpw" THEN "panic" \notin DOMAIN r /\ CheckWide(r)
+  ELSE IF r.ev = "lerpaa" THEN "panic" \notin DOMAIN r /\ CheckSame(r)
   ELSE r.float_bad = 0 /\ r.glam_bad = 0 /\ r.float_checked > 0 /\ r.glam_checked > 0
 
 Step == l <= Len(Rec) /\ CheckRec(Rec[l]) /\ l' = l + 1
